@@ -57,6 +57,21 @@ MUTANTS = [
  ('c19_override_lost', 'C19', D + 'json.rs', 'let settings = settings.unwrap_or(json_data.settings);', 'let settings = { let _ = settings; json_data.settings };'),
  ('c19_no_validation', 'C19', D + 'json.rs', '        check_json_problem_data(&P, &q, &A, &b, &cones)?;\n', '        let _ = check_json_problem_data::<T>;\n'),
  ('c20_footer_unguarded', 'C20', D + 'info_print.rs', '    fn print_footer(&mut self, settings: &DefaultSettings<T>) -> std::io::Result<()> {\n        if !settings.verbose {\n            return std::io::Result::Ok(());\n        }\n', '    fn print_footer(&mut self, settings: &DefaultSettings<T>) -> std::io::Result<()> {\n        let _ = settings;\n'),
+ ('c13_nn_w_inverted', 'C13', R + 'core/cones/nonnegativecone.rs', '*w = T::sqrt((*s) / (*z));', '*w = T::sqrt((*z) / (*s));'),
+ ('c13_nn_winv_mul', 'C13', R + 'core/cones/nonnegativecone.rs', 'y[i] = α * (x[i] / self.w[i]) + β * y[i];', 'y[i] = α * (x[i] * self.w[i]) + β * y[i];'),
+ ('c13_nn_offset_mul', 'C13', R + 'core/cones/nonnegativecone.rs', '*outi = dsi / zi;', '*outi = dsi * zi;'),
+ ('c13_nn_hs_w', 'C13', R + 'core/cones/nonnegativecone.rs', '*blki = wi * wi;', '*blki = wi;'),
+ ('c13_shift_winv_on_dz', 'C13', R + 'core/cones/symmetric_common.rs', 'self.mul_W(MatrixShape::N, step_z, tmp, T::one(), T::zero());', 'self.mul_Winv(MatrixShape::N, step_z, tmp, T::one(), T::zero());'),
+ ('c13_shift_sigma_sign', 'C13', R + 'core/cones/symmetric_common.rs', 'self.scaled_unit_shift(shift, -σμ, PrimalOrDualCone::PrimalCone);', 'self.scaled_unit_shift(shift, σμ, PrimalOrDualCone::PrimalCone);'),
+ ('c13_offset_no_transpose', 'C13', R + 'core/cones/symmetric_common.rs', 'self.mul_W(MatrixShape::T, out, work, T::one(), T::zero());', 'self.mul_W(MatrixShape::N, out, work, T::one(), T::zero());'),
+ ('c13_psd_hs_flags', 'C13', R + 'core/cones/psdtrianglecone.rs', 'self.mul_W(MatrixShape::T, y, work, T::one(), T::zero()); // y = c', 'self.mul_W(MatrixShape::N, y, work, T::one(), T::zero()); // y = c'),
+ ('c13_soc_winv_sign', 'C13', R + 'core/cones/socone.rs', 'let c = -x[0] + ζ / (T::one() + w[0]);', 'let c = x[0] + ζ / (T::one() + w[0]);'),
+ ('c13_soc_hs_no_two', 'C13', R + 'core/cones/socone.rs', 'let c = self.w.dot(x) * (2.).as_T();', 'let c = self.w.dot(x);'),
+ ('c13_soc_w0_not_normalised', 'C13', R + 'core/cones/socone.rs', '        w[0] = T::sqrt(T::one() + w1sq);\n', ''),
+ ('c13_soc_inv_circ_c2', 'C13', R + 'core/cones/socone.rs', 'let c2 = T::recip(y[0]);', 'let c2 = T::recip(p);'),
+ ('c13_soc_affine_ds_w', 'C13', R + 'core/cones/socone.rs', '_circ_op(ds, &self.λ, &self.λ);', '_circ_op(ds, &self.λ, &self.w);'),
+ ('c13_psd_winv_uses_R', 'C13', R + 'core/cones/psdtrianglecone.rs', '&self.data.Rinv,\n            &mut self.data.workmat1,\n            &mut self.data.workmat2,\n            &mut self.data.workmat3,\n        )\n', '&self.data.R,\n            &mut self.data.workmat1,\n            &mut self.data.workmat2,\n            &mut self.data.workmat3,\n        )\n'),
+ ('c13_psd_T_arm_no_t', 'C13', R + 'core/cones/psdtrianglecone.rs', 'tmp.mul(X, &Rx.t(), T::one(), T::zero());', 'tmp.mul(X, Rx, T::one(), T::zero());'),
  ('c20_println_debug', 'C20', R + 'core/solver.rs', '            if is_scaling_success {\n                StrategyCheckpoint::NoUpdate', '            if is_scaling_success {\n                println!("scaling ok");\n                StrategyCheckpoint::NoUpdate'),
  ('c20_header_wrong_m', 'C20', D + 'info_print.rs', 'writeln!(out, "  constraints   = {}", data.m)?;', 'writeln!(out, "  constraints   = {}", data.n)?;'),
  ('c18_cones_stale', 'C18', D + 'problemdata.rs', '            cones_new.as_ref().unwrap_or(&cones),\n            settings,\n        );', '            &cones,\n            settings,\n        );'),
